@@ -423,7 +423,7 @@ def judge(ctx, s, hres, var, stats):
     after_copy = (crash_line is None or crash_line >= s.copy_at) and all(i >= s.copy_at for i, *_ in div)
     ok_main, why_main = compare(s, hres, mmain)
     ok_cur, why_cur = compare(s, hres, mcur)
-    stats["outcomes"][hcls] = stats["outcomes"].get(hcls, 0) + 1
+    stats.setdefault("outcomes", {})[hcls] = stats.get("outcomes", {}).get(hcls, 0) + 1
     if ok_main and not misbehaves:
         return None
     copyline = lambda ans: next((norm_ctl(l) for l in ans if l.startswith("copy ok")), None)
@@ -453,9 +453,51 @@ def judge(ctx, s, hres, var, stats):
     return ("corr:%s" % s.kind, "%s: model and code disagree without observable misbehaviour (repaired: %s; current: %s)" % (s.kind, why_main, why_cur) + tail, False)
 
 
-def replay_dict(s, hres):
+def replay_dict(ctx, s, hres):
+    tmp = str(ctx.scratch)
     return {"scenario": s.text(), "kind": s.kind, "args": s.args, "answers": hres[0][-12:], "exit": hres[1],
+            "entry": {"kind": s.kind, "args": s.args.replace(tmp, "$TMP"), "model_kind": s.model_kind, "lines": s.lines, "mlines": s.mlines,
+                      "pairs": [list(p) for p in s.pairs], "copy_at": s.copy_at, "failcopy": s.failcopy,
+                      "shape": getattr(s, "fixed_shape", None), "base_probe": getattr(s, "base_probe", None)},
             "cmd": "harness/h_c19.c built as in tools/checks/c19.py, scenario on stdin, ASAN_OPTIONS=detect_leaks=1"}
+
+
+def scenario_from_entry(ctx, tag, c, imgs):
+    args = c["args"].replace("$TMP", str(ctx.scratch))
+    if "$IMG" in args:
+        args = args.replace("$IMG", str(imgs.get(c.get("image") or "gzip", imgs["gzip"])))
+    s = Scenario(tag, c["kind"], args, c["model_kind"])
+    s.lines, s.mlines, s.pairs, s.copy_at, s.failcopy = c["lines"], c["mlines"], [tuple(p) for p in c["pairs"]], c["copy_at"], c.get("failcopy")
+    s.fixed_shape = c.get("shape")
+    if c.get("base_probe"):
+        s.base_probe = c["base_probe"]
+    return s
+
+
+def evaluate(ctx, harness, scs):
+    """run scenarios through the real objects and all model variants; returns (results, per-scenario variant dicts)"""
+    return evaluate_models(ctx, scs, run_harness(ctx, harness, scs))
+
+
+def evaluate_models(ctx, scs, res):
+    shapes = []
+    for s, (hans, hexit) in zip(scs, res):
+        pl = next((l for l in hans if l.startswith("copy ok")), None)
+        probe = parse_probe(pl) if pl else getattr(s, "base_probe", None)
+        shapes.append(shape_of(probe) if probe else (getattr(s, "fixed_shape", None) or "shape - - -"))
+    var = {n: run_model(ctx, mode, scs, shapes) for n, mode in VARIANTS}
+    fidx = [i for i, s in enumerate(scs) if s.failcopy]
+    if fidx:
+        fsc = [scs[i] for i in fidx]
+        fsh = [shapes[i] for i in fidx]
+        for n, mode in VARIANTS:
+            alts = [run_model(ctx, mode, fsc, fsh, fail_at=j) for j in range(1, 9)]
+            for k, i in enumerate(fidx):
+                for a in alts:
+                    if compare(scs[i], res[i], a[k])[0]:
+                        var[n][i] = a[k]
+                        break
+    return res, [{n: var[n][i] for n, _ in VARIANTS} for i in range(len(scs))]
 
 
 # --------------------------------------------------------------------------------------------- table machines
@@ -529,10 +571,7 @@ def run(ctx):
     for i, (kind, var) in enumerate(plan):
         scs.append(gen_scenario(ctx, "s%d" % i, kind, imgs, sizes, var))
     for j, c in enumerate(corpus):
-        s = Scenario("c%d" % j, c["kind"], c["args"].replace("$IMG", str(imgs.get(c.get("image", "gzip"), imgs["gzip"]))).replace("$TMP", str(ctx.scratch)), c["model_kind"])
-        s.lines, s.mlines, s.pairs, s.copy_at, s.failcopy = c["lines"], c["mlines"], [tuple(p) for p in c["pairs"]], c["copy_at"], c.get("failcopy")
-        s.fixed_shape = c.get("shape")
-        scs.insert(j, s)
+        scs.insert(j, scenario_from_entry(ctx, "c%d" % j, c, imgs))
     ctx.log("%d scenarios (%d corpus), harness built; running" % (len(scs), len(corpus)))
     hres = run_harness(ctx, harness, scs)
     # allocation-failure variants: every k up to the number of allocations the successful copy made
@@ -558,45 +597,29 @@ def run(ctx):
     ctx.log("%d allocation-failure variants run" % len(fscs))
     allsc = scs + fscs
     allres = hres + fres
-    shapes = []
-    for s, (hans, hexit) in zip(allsc, allres):
-        pl = next((l for l in hans if l.startswith("copy ok")), None)
-        probe = parse_probe(pl) if pl else getattr(s, "base_probe", None)
-        shapes.append(shape_of(probe) if probe else (getattr(s, "fixed_shape", None) or "shape - - -"))
-    var = {n: run_model(ctx, mode, allsc, shapes) for n, mode in VARIANTS}
-    # allocation-failure variants: the k-th real allocation corresponds to *some* failing step of the hook's model
-    # (one model step may stand for several real allocations), so the model is run for every failing step j and the
-    # real outcome must be explained by one of them
-    fidx = [i for i, s in enumerate(allsc) if s.failcopy]
-    if fidx:
-        fsc = [allsc[i] for i in fidx]
-        fsh = [shapes[i] for i in fidx]
-        for n, mode in VARIANTS:
-            alts = [run_model(ctx, mode, fsc, fsh, fail_at=j) for j in range(1, 9)]
-            for k, i in enumerate(fidx):
-                for a in alts:
-                    if compare(allsc[i], allres[i], a[k])[0]:
-                        var[n][i] = a[k]
-                        break
+    # the models (hooks repaired / partly repaired / current) on the same scripts.  Allocation-failure variants: the k-th
+    # real allocation corresponds to *some* failing step of the hook's model (one model step may stand for several real
+    # allocations), so the model is run for every failing step and the real outcome must be explained by one of them
+    _, allvar = evaluate_models(ctx, allsc, allres)
     stats = {"outcomes": {}, "kinds": {}, "findings": {}}
     nviol = 0
     pair_checks = 0
     for idx, (s, hr) in enumerate(zip(allsc, allres)):
         stats["kinds"][s.kind] = stats["kinds"].get(s.kind, 0) + 1
         pair_checks += sum(1 for i, j in s.pairs if i < len(hr[0]) and j < len(hr[0]))
-        v = judge(ctx, s, hr, {n: var[n][idx] for n, _ in VARIANTS}, stats)
+        v = judge(ctx, s, hr, allvar[idx], stats)
         if v:
             key, what, found = v
             stats["findings"][key] = stats["findings"].get(key, 0) + 1
             if stats["findings"][key] <= 2 or ctx.known_finding(key) is None and stats["findings"][key] <= 4:
-                ctx.violation(key, what, replay_dict(s, hr), found_input=found)
+                ctx.violation(key, what, replay_dict(ctx, s, hr), found_input=found)
     # tables: exact answers
     tscs = run_tables(ctx, harness, 30 if ctx.quick() else 1500)
     tres = run_harness(ctx, harness, tscs)
     tbad, ttotal = check_tables(ctx, harness, tscs, tres)
     for s, i, a, b in tbad[:3]:
         ctx.violation("tbl:%s" % s.kind, "%s: answer of `%s` is `%s`, the state-machine model says `%s`" % (s.kind, s.lines[i], a, b),
-                      replay_dict(s, ([a], ["-"])), found_input=False)
+                      replay_dict(ctx, s, ([a], ["-"])), found_input=False)
     nontrivial = sum(1 for s, hr in zip(allsc, allres) if any(l.startswith("copy ok") or l.startswith("copy NULL") for l in hr[0]))
     ctx.cov.update({
         "evaluations": sum(len(s.lines) for s in allsc) + sum(len(s.lines) for s in tscs),
@@ -619,23 +642,24 @@ def run(ctx):
 
 
 def replay(ctx, path):
+    import random
     body = json.loads(open(path).read())
     rp = body.get("replay", {})
-    if "scenario" not in rp:
+    if "entry" not in rp:
         print("replay file names a broken obligation, no input to replay:", json.dumps(rp)[:500])
         return 1
+    ctx.lean_build(["sqfsmodel"])
     harness, gen = build(ctx)
-    env = ctx.san_env({"ASAN_OPTIONS": "detect_leaks=1:abort_on_error=0:exitcode=99:allocator_may_return_null=1"})
-    text = rp["scenario"]
-    # images live in the scratch directory of the run that found the violation: rebuild them and patch the paths
-    m = re.search(r"(/\S+)/img/img_(\w+)\.sqfs", text)
-    if m:
-        imgs, _ = make_images(ctx, gen, ["gzip", "xz", "lz4", "zstd", "lzma"])
-        text = re.sub(r"/\S+/img/img_(\w+)\.sqfs", lambda mm: str(imgs.get(mm.group(1), imgs["gzip"])), text)
-    text = re.sub(r"(scenario \S+ xwr) \S+", r"\1 %s" % ctx.scratch, text)
-    p = vlib.sh([str(harness), str(ctx.scratch)], input=text, env=env, timeout=600)
-    print(p.stdout)
-    last = [l for l in p.stdout.splitlines() if l.startswith("exit ")]
-    bad = not last or last[-1].split()[1] != "ok"
-    print("reproduces" if bad else "outcome ok (divergence-only findings: compare the o/t1 and c/t2 answers above)")
-    return 1 if bad else 0
+    ctx.rng = random.Random("%s/%d" % (ctx.prop, int(body.get("seed", 0))))     # same images as the run that found it
+    imgs, _ = make_images(ctx, gen, ["gzip", "xz", "lz4", "zstd", "lzma"])
+    s = scenario_from_entry(ctx, "replay", rp["entry"], imgs)
+    res, var = evaluate(ctx, harness, [s])
+    print(s.text())
+    print("\n".join(res[0][0]))
+    print("exit", " ".join(res[0][1]))
+    v = judge(ctx, s, res[0], var[0], {"outcomes": {}})
+    if v is None:
+        print("replay: the scenario now behaves as the model of the repaired hooks predicts (no violation)")
+        return 0
+    print("replay: reproduces -> key=%s: %s" % (v[0], v[1][:600]))
+    return 1
